@@ -155,6 +155,11 @@ def build(case):
             steps.append(DF.join(res[0]['name'], ['grp'], res[1]['name'], ['grp'], {nm: {'name': 'id', 'aggregate': agg}},
                                  mode=['inner', 'half-outer', 'full-outer', 'half-outer'][a], source_delete=True))
             res[1]['fields'].append(nm)
+            if a == 2:
+                # full-outer: the rows added for unmatched source keys carry the key and the aggregates only (the other
+                # target fields are absent until the final validation fills them in), so later steps that index
+                # row['id'] are not well-typed on this resource
+                res[1]['idtype'] = 'sparse'
             res.pop(0)
         elif t == 'join_keep' and idint and len(res) >= 2 and 'grp' in res[0]['fields'] and 'grp' in res[1]['fields'] and 'id' in res[0]['fields']:
             # the source stays in the package; the joined field gets a new name and copies the source field's properties
@@ -163,6 +168,8 @@ def build(case):
             steps.append(DF.join(res[0]['name'], ['grp'], res[1]['name'], ['grp'], {nm: {'name': 'id', 'aggregate': agg}},
                                  mode=['half-outer', 'inner', 'half-outer', 'full-outer'][a], source_delete=False))
             res[1]['fields'].append(nm)
+            if a == 3:
+                res[1]['idtype'] = 'sparse'
         elif t == 'join_self' and idint and 'grp' in first['fields'] and 'id' in first['fields']:
             steps.append(DF.join_with_self(first['name'], ['grp'], {'grp': None, 'n': {'aggregate': 'count'}, 'top': {'name': 'id', 'aggregate': 'max'}}))
             first['fields'] = ['grp', 'n', 'top']
